@@ -615,8 +615,149 @@ fn run_real_text_nodefine(text: &str) -> Result<Result<Vec<usize>, PreprocessErr
     run_real_text(text).map(|r| r.result)
 }
 
-// -------------------------------------------------------------------------------------------
 
+// -------------------------------------------------------------------------------------------
+// Part 3c: the `defined` operator under every *kind* of macro definition of the queried name
+// (undefined / object-like / function-like / removed again / defined only in a skipped branch), in every
+// spelling of the operator, in `#if`, `#elif` (evaluated) and `#elif` (not evaluated) position, alone and
+// combined with a second name through every binary operator; plus `#ifdef` / `#ifndef` under the same kinds.
+
+/// (name of the kind, class used in signatures, lines that set the kind up for the name `@`, is `@` defined afterwards)
+const DEF_KINDS: &[(&str, &str, &str, bool)] = &[
+    ("undefined", "undefined", "", false),
+    ("object-empty", "object", "#define @\n", true),
+    ("object-0", "object", "#define @ 0\n", true),
+    ("object-1", "object", "#define @ 1\n", true),
+    ("object-paren-body", "object", "#define @ (1)\n", true),
+    ("function-1-param", "function", "#define @(x) x\n", true),
+    ("function-0-params", "function", "#define @() 0\n", true),
+    ("function-2-params", "function", "#define @(a, b) a\n", true),
+    ("function-empty-body", "function", "#define @(a)\n", true),
+    ("object-undefined-again", "removed", "#define @ 1\n#undef @\n", false),
+    ("function-undefined-again", "removed", "#define @(x) x\n#undef @\n", false),
+    ("object-in-skipped-branch", "removed", "#if 0\n#define @ 1\n#endif\n", false),
+    ("function-in-skipped-branch", "removed", "#if 0\n#define @(x) x\n#endif\n", false),
+    ("function-in-selected-branch", "function", "#if 1\n#define @(x) x\n#endif\n", true),
+    ("object-then-function", "function", "#define @ 1\n#undef @\n#define @(x) x\n", true),
+    ("function-then-object", "object", "#define @(x) x\n#undef @\n#define @ 1\n", true),
+];
+/// kinds of the second name (indices into DEF_KINDS)
+const DEF_KINDS_Q: &[usize] = &[0, 3, 1, 5, 6, 10];
+const DEF_FORMS: &[&str] = &["defined(@)", "defined @", "defined ( @ )"];
+const DEF_PREFIX: &[&str] = &["", "!"];
+/// position of the condition: `#if C`, `#if 0 / #elif C` (evaluated), `#if 1 / #elif C` (never selected)
+const DEF_POSITIONS: &[&str] = &["if", "elif-evaluated", "elif-after-taken"];
+/// number of condition shapes: 12 with one name, 6*8*6 with two names, 2 (#ifdef/#ifndef)
+const DEF_SINGLE: u64 = 12;
+const DEF_BINARY: u64 = 6 * 8 * 6;
+const DEF_SHAPES: u64 = DEF_SINGLE + DEF_BINARY + 2;
+
+fn defkind_total() -> u64 {
+    DEF_KINDS.len() as u64 * DEF_KINDS_Q.len() as u64 * DEF_POSITIONS.len() as u64 * DEF_SHAPES
+}
+
+/// One case of the space, simplest first: shape is the fastest digit group only after kinds, i.e. the index is
+/// (shape, position, kind of Q, kind of P) with the kind of P varying fastest.
+fn check_defkind(idx: u64, acc: &mut Acc) {
+    let mut d = Vec::new();
+    let radices = [DEF_KINDS.len() as u64, DEF_KINDS_Q.len() as u64, DEF_POSITIONS.len() as u64, DEF_SHAPES];
+    crate::util::decode(idx, &radices, &mut d);
+    let kp = &DEF_KINDS[d[0] as usize];
+    let kq = &DEF_KINDS[DEF_KINDS_Q[d[1] as usize]];
+    let pos = DEF_POSITIONS[d[2] as usize];
+    let shape = d[3];
+    let atom = |code: u64, name: &str, defd: bool| -> (String, Vec<CTok>) {
+        // code in 0..6 : prefix * 3 + form
+        let pre = DEF_PREFIX[(code / 3) as usize];
+        let form = DEF_FORMS[(code % 3) as usize].replace('@', name);
+        let mut t = Vec::new();
+        if !pre.is_empty() {
+            t.push(CTok::Not);
+        }
+        t.push(CTok::Num(defd as u64));
+        (format!("{}{}", pre, form), t)
+    };
+    let mut uses_q = false;
+    let mut uses_p = true;
+    // directive line carrying the condition, reference value
+    let (directive, cond_text, want): (&str, String, bool) = if shape < DEF_SINGLE {
+        let on_q = shape >= 6;
+        let (txt, toks) = if on_q { atom(shape - 6, "Q", kq.3) } else { atom(shape, "P", kp.3) };
+        uses_q = on_q;
+        uses_p = !on_q;
+        ("if", txt, ref_eval(&toks).unwrap() != 0)
+    } else if shape < DEF_SINGLE + DEF_BINARY {
+        let s = shape - DEF_SINGLE;
+        let (l, op, r) = (s % 6, (s / 6) % 8, s / 48);
+        let (lt, mut toks) = atom(l, "P", kp.3);
+        let (rt, rtoks) = atom(r, "Q", kq.3);
+        toks.push(OPS[op as usize].1);
+        toks.extend(rtoks);
+        uses_q = true;
+        ("if", format!("{} {} {}", lt, OPS[op as usize].0, rt), ref_eval(&toks).unwrap() != 0)
+    } else if shape == DEF_SINGLE + DEF_BINARY {
+        ("ifdef", "P".to_string(), kp.3)
+    } else {
+        ("ifndef", "P".to_string(), !kp.3)
+    };
+    // #ifdef / #ifndef have no #elif spelling: only the `if` position
+    if directive != "if" && pos != "if" {
+        return;
+    }
+    acc.evals += 1;
+    let mut src = String::new();
+    src.push_str(&kp.2.replace('@', "P"));
+    src.push_str(&kq.2.replace('@', "Q"));
+    let expected: Vec<usize> = match pos {
+        "if" => {
+            src.push_str(&format!("#{} {}\nt1;\n#else\nt3;\n#endif\n", directive, cond_text));
+            vec![if want { 1 } else { 3 }]
+        }
+        "elif-evaluated" => {
+            src.push_str(&format!("#if 0\nt5;\n#elif {}\nt1;\n#else\nt3;\n#endif\n", cond_text));
+            vec![if want { 1 } else { 3 }]
+        }
+        _ => {
+            src.push_str(&format!("#if 1\nt5;\n#elif {}\nt1;\n#else\nt3;\n#endif\n", cond_text));
+            vec![5]
+        }
+    };
+    src.push_str("t7;\n");
+    let mut expected = expected;
+    expected.push(7);
+    let mut classes: Vec<&str> = Vec::new();
+    if uses_p {
+        classes.push(kp.1);
+    }
+    if uses_q {
+        classes.push(kq.1);
+    }
+    classes.sort();
+    classes.dedup();
+    let class = classes.join("+");
+    let op_name = if directive == "if" { "defined" } else { directive };
+    let shown = format!("P: {}, Q: {}; #{} {} ({})", kp.0, kq.0, if pos == "if" { directive } else { "elif" }, cond_text, pos);
+    let replay = format!("kind: defkind\nidx: {}\n{}", idx, src);
+    match run_real_text_nodefine(&src) {
+        Err(p) => acc.violation(Violation { signature: p.signature(), detail: format!("{} panicked: {}", shown, p.message), replay }),
+        Ok(Err(e)) => acc.violation(Violation {
+            signature: format!("condexpr|{}|well-formed-rejected|{}", op_name, class),
+            detail: format!("{} rejected: {:?}\n{}", shown, e, src),
+            replay,
+        }),
+        Ok(Ok(lines)) => {
+            if lines != expected {
+                acc.violation(Violation {
+                    signature: format!("condexpr|{}|wrong-value|{}", op_name, class),
+                    detail: format!("{}: surviving text lines {:?}, C semantics select {:?}\n{}", shown, lines, expected, src),
+                    replay,
+                });
+            } else {
+                acc.outcome(&("defkind", kp.0, if uses_q { kq.0 } else { "" }, pos, directive, cond_text, lines));
+            }
+        }
+    }
+}
 
 // -------------------------------------------------------------------------------------------
 // Part 4: #include / #pragma / unknown or malformed directives inside unselected branches have no effect
@@ -978,6 +1119,21 @@ pub fn run(ctx: &Ctx) -> i32 {
         rep.absorb("condition_strings_with_trivia", r);
     }
 
+
+    // ---- Part 3c: `defined` / #ifdef / #ifndef under every kind of macro definition of the queried names
+    {
+        let total = defkind_total();
+        let r = run_par(ctx, total, 512, |idx, acc| {
+            check_defkind(idx, acc);
+            if idx % 20_011 == 5 {
+                acc.sample(obj(vec![("space", "defined-under-definition-kinds".into()), ("idx", Json::Int(idx as i64))]));
+            }
+        });
+        rep.cov("defined_definition_kinds", Json::Int(DEF_KINDS.len() as i64));
+        rep.cov("defined_condition_shapes", Json::Int(DEF_SHAPES as i64));
+        rep.absorb("defined_under_definition_kinds", r);
+    }
+
     // ---- Part 4: other directives inside unselected branches
     let ctxs = contexts();
     let total = (ctxs.len() * EFFECTS.len()) as u64;
@@ -996,6 +1152,7 @@ pub fn run(ctx: &Ctx) -> i32 {
         "sequences that C leaves ill-formed but the property does not list (second #else, #elif after #else) are only required not to panic and are not extended".into(),
         "condition reference: u64 values, precedence ! > < <= > >= > == != > && > ||, identifiers 0, defined(X); arithmetic operators are not supported by rssl's #if and are outside the property".into(),
         "#elif conditions in already-satisfied or skipped chains are well-formed in every generated history".into(),
+        "definition kinds: `defined X` / `#ifdef X` are 1 exactly when a #define of X (object-like or function-like, any parameter count, any body) in a selected branch is in effect and not #undef'd; a function-like name used in a condition *outside* `defined` is not generated".into(),
     ];
     finish(ctx, rep)
 }
@@ -1090,6 +1247,16 @@ pub fn replay(ctx: &Ctx, body: &str) -> i32 {
                 check_cond_env(&c, &toks, "", kk, &mut acc);
             } else {
                 check_cond_env(&c, &toks, "#define M 2", kk, &mut acc);
+            }
+        }
+        "kind: defkind" => {
+            let idx = rest.lines().next().and_then(|l| l.strip_prefix("idx:")).and_then(|v| v.trim().parse::<u64>().ok());
+            match idx {
+                Some(i) if i < defkind_total() => check_defkind(i, &mut acc),
+                _ => {
+                    eprintln!("machinery error: bad defkind index");
+                    return 2;
+                }
             }
         }
         k => {
